@@ -94,6 +94,16 @@ theorem steps_le' (i : Inst) (hwf : WF i) {as : List Nat} {s : State}
     (h : RunND env i (env.reset i) as s) : as.length ≤ i.n + i.m := by
   have := steps_le i hwf h; omega
 
+/-! ### step bound with the constants of the property text -/
+
+/-- `n` customers and `m` agents: at most `n + m − 1` calls of `env.step` (every customer once, at most
+`m − 1` returns), i.e. at most `num_loc + num_agents − 2` with `num_loc = n + 1` counting the depot. -/
+theorem steps_le_text (i : Inst) (hwf : WF i) {as : List Nat} {s : State}
+    (h : RunND env i (env.reset i) as s) : as.length ≤ (i.n + 1) + i.m - 2 := by
+  have := steps_le i hwf h
+  have := hwf.2
+  omega
+
 /-- Non-vacuity of `WF` and tightness of the bound: 2 customers, 2 agents, the three-step episode
 `[1,0,2]` (= n + m − 1 steps). -/
 example : WF ⟨2, 2, fun _ _ => 1⟩ := ⟨by decide, by decide⟩
